@@ -48,7 +48,14 @@ func (v *PacketDslVisitorImpl) metaDataDeclarationToMetaData(ctx *gen.MetaDataDe
 			Type: ctx.Type_().GetText(),
 		}
 	} else if ctx.Type_().FixedString() != nil {
-		size, _ := strconv.Atoi(ctx.Type_().FixedString().DIGITS().GetText())
+		size, err := strconv.Atoi(ctx.Type_().FixedString().DIGITS().GetText())
+		if err != nil {
+			v.BinModel.AddSyntaxError(&model.SyntaxError{
+				Line:   ctx.GetStart().GetLine(),
+				Column: ctx.GetStart().GetColumn(),
+				Msg:    "Length of fixed string " + ctx.GetName().GetText() + " is out of range: " + ctx.Type_().FixedString().DIGITS().GetText(),
+			})
+		}
 		if strings.Contains(ctx.Type_().GetText(), "zchar") {
 			attr = &model.FixedStringFieldAttribute{
 				Length:  size,
@@ -469,7 +476,14 @@ func (v *PacketDslVisitorImpl) metaDataDeclarationToField(ctx *gen.MetaDataDecla
 			Type: ctx.Type_().GetText(),
 		}
 	} else if ctx.Type_().FixedString() != nil {
-		size, _ := strconv.Atoi(ctx.Type_().FixedString().DIGITS().GetText())
+		size, err := strconv.Atoi(ctx.Type_().FixedString().DIGITS().GetText())
+		if err != nil {
+			v.BinModel.AddSyntaxError(&model.SyntaxError{
+				Line:   ctx.GetStart().GetLine(),
+				Column: ctx.GetStart().GetColumn(),
+				Msg:    "Length of fixed string " + ctx.GetName().GetText() + " is out of range: " + ctx.Type_().FixedString().DIGITS().GetText(),
+			})
+		}
 		if strings.Contains(ctx.Type_().GetText(), "zchar") {
 			attr = &model.FixedStringFieldAttribute{
 				Length:  size,
@@ -559,6 +573,13 @@ func (v *PacketDslVisitorImpl) VisitRefMetaDataDeclaration(ctx *gen.RefMetaDataD
 	desc := ""
 	if ctx.STRING_LITERAL() != nil {
 		desc = ctx.STRING_LITERAL().GetText()
+	}
+	if _, ok := v.BinModel.MetaDataMap[ctx.GetTyp().GetText()]; !ok {
+		v.BinModel.AddSyntaxError(&model.SyntaxError{
+			Line:   ctx.GetStart().GetLine(),
+			Column: ctx.GetStart().GetColumn(),
+			Msg:    "Unknown MetaData type " + ctx.GetTyp().GetText() + " for " + ctx.GetName().GetText(),
+		})
 	}
 	return model.MetaData{
 		Name:        ctx.GetName().GetText(),
